@@ -63,7 +63,7 @@ META = {
                         'S3 content filter on JSON-decoded metadata'],
     'components_stub': ['S3 bucket', 'uuid / clock'],
     'budgets': {'quick': {'seconds': 20}, 'thorough': {'seconds': 300}},
-    'required_probes': {'quick': ['table_filter'], 'thorough': ['table_filter', 'random_case', 'conjunction', 'concurrent_matching']},
+    'required_probes': {'quick': ['table_filter'], 'thorough': ['table_filter', 'random_case', 'conjunction', 'concurrent_matching', 'concurrent_matching_same_filter_object']},
 }
 
 
@@ -206,6 +206,12 @@ def concurrent_matching(tape):
                 md['name'] = tape.choice(['a', 'ab', 'abc', 'b', 'cab', ''])
             cases.append((filt, md))
         jobs.append(cases)
+    # the two lookups may be given the very same filter object (one lookup-properties object used by both threads)
+    shared = tape.draw(2) == 1
+    if shared:
+        run.probe('concurrent_matching_same_filter_object')
+        jobs[1] = [(filt, md2) for (filt, _), (_, md2) in zip(jobs[0], jobs[1] + jobs[0])]
+        frozen = [V.canon(f) for f, _ in jobs[0]]
     results = {}
 
     def worker(t, cases):
@@ -213,7 +219,7 @@ def concurrent_matching(tape):
             out = []
             for filt, md in cases:
                 try:
-                    out.append(TapeCassette.match_against_recorded_metadata(copy.deepcopy(filt), copy.deepcopy(md)))
+                    out.append(TapeCassette.match_against_recorded_metadata(filt if shared else copy.deepcopy(filt), copy.deepcopy(md)))
                 except Exception as ex:
                     out.append(ex)
             results[t] = out
@@ -229,6 +235,9 @@ def concurrent_matching(tape):
         run.violate('never_raises', 'deadlock', str(ex))
         return run
     run.nontrivial = sim.switches > 2
+    if shared:
+        run.check(frozen == [V.canon(f) for f, _ in jobs[0]], 'means_what_is_documented', 'filter-object-modified-by-matching',
+                  'matching changed the filter object it was given')
     for t, cases in enumerate(jobs):
         for (filt, md), got in zip(cases, results.get(t, [])):
             exp = expected(filt, md)
